@@ -260,6 +260,9 @@ def _generic_eq(interp, a, b):
     I = _I()
     if a is None or b is None:
         return a is b
+    if isinstance(a, (I.SStr, I.SChar)) or isinstance(b, (I.SStr, I.SChar)):
+        h = (a if isinstance(a, (I.SStr, I.SChar)) else b).compare_hook
+        return h(interp, 'Eq', a, b)
     if _is_num(a) and _is_num(b):
         return _scalar_compare('Eq', a, b)
     if isinstance(a, str) and isinstance(b, str):
@@ -711,8 +714,35 @@ def _format(interp, val, spec, conversion=-1):
     h = getattr(interp, 'format_hook', None)
     if h is not None:
         return h(val, spec)
-    # opaque rendering
-    return I.SStr(CTX.fresh('fmtlen', 'int'), None, tag=('format', val, spec))
+    # rendering of a symbolic value: len(format(s, '[fill][<>^][width]')) = max(width, len(rendering))
+    import re as _re
+    m = _re.fullmatch(r'(?:(.)?([<>^=]))?(0?\d+)?(?:\.(\d+))?([a-zA-Z%])?', spec)
+    width = int(m.group(3)) if m and m.group(3) else 0
+    if isinstance(val, I.SStr):
+        base_len = val.length
+        src = val
+    else:
+        base_len = render_length(interp, val, spec)
+        src = None
+    if width == 0:
+        total = base_len
+    else:
+        total = smax(width, base_len)
+    r = I.SStr(total, None, tag=('format', val, spec))
+    if src is not None:
+        r.formatted_from = src
+    return r
+
+
+def render_length(interp, val, spec=''):
+    """len(format(number, spec)) as a symbol (>= 1), one per (value term, spec); contracts may constrain it."""
+    table = interp.__dict__.setdefault('render_lengths', {})
+    key = (val.t.get_id() if isinstance(val, Sym) else id(val), spec if any(c in spec for c in 'eEfFgG.') else '')
+    if key not in table:
+        n = CTX.fresh('renderlen', 'int')
+        CTX.side.append((n >= 1).t)
+        table[key] = (val, n)
+    return table[key][1]
 
 
 @lib('builtins.open')
@@ -857,6 +887,22 @@ def _d_pop(interp, d, k, *default):
 @_method('dict', 'setdefault')
 def _d_setdefault(interp, d, k, v=None):
     return d.setdefault(interp.dict_key(k), v)
+
+
+def _sstr_encode(interp, s):
+    def f(interp2, *a, **k):
+        r = _I().SStr(s.length, None, tag=('encode', s), is_bytes=True)
+        r.encoded_from = s
+        return r
+    return f
+
+
+def _sstr_strip(interp, s):
+    def f(interp2, *a, **k):
+        n = CTX.fresh('striplen', 'int')
+        CTX.side.append(And(n >= 0, n <= s.length).t)
+        return _I().SStr(n, None, tag=('strip', s))
+    return f
 
 
 for _name in ['strip', 'lstrip', 'rstrip', 'upper', 'lower', 'split', 'encode', 'replace', 'format',
@@ -2122,3 +2168,61 @@ def scipy_wofz(interp, z):
     if isinstance(z, SArr):
         return A.elementwise1(z, _wofz_scalar, 'complex')
     return _wofz_scalar(z)
+
+
+
+# files --------------------------------------------------------------------------------------------------------
+
+class FileW:
+    """A file opened for (binary) writing: byte count plus a structural log of what was written.
+    Ghost fields (for loop invariants in callers): nbytes, n_headers, n_data."""
+    type_tag = 'filew'
+
+    def __init__(self, name, mode='wb'):
+        self.name, self.mode = name, mode
+        self.nbytes = 0
+        self.log = []            # (kind, length, payload) for writes made outside symbolic loops
+        self.n_headers = 0       # ghost: headers completed (maintained by _make_header's contract)
+        self.n_data = 0          # ghost: data blobs written
+        self.closed = False
+        self.order_ok = True     # ghost: header/data alternation respected so far
+
+    def write(self, interp, data):
+        I = _I()
+        if isinstance(data, I.SStr):
+            kind, ln = ('text', data.length)
+        elif isinstance(data, (bytes, str)):
+            kind, ln = ('text', len(data))
+        elif isinstance(data, ByteBlob):
+            kind, ln = (data.kind, data.length)
+        else:
+            raise Unsupported(f"write of {data!r}")
+        self.log.append((kind, ln, data))
+        self.nbytes = self.nbytes + ln
+        if kind == 'array':
+            self.order_ok = And(self.order_ok, eq(self.n_headers, self.n_data + 1)) if not isinstance(self.order_ok, bool) or not is_conc(self.n_headers) or not is_conc(self.n_data) \
+                else (self.order_ok and self.n_headers == self.n_data + 1)
+            self.n_data = self.n_data + 1
+        return ln
+
+    def close_ctx(self, interp):
+        self.closed = True
+
+
+LIBATTR[('filew', 'write')] = lambda interp, f: (lambda i2, data: f.write(i2, data))
+LIBATTR[('filew', 'close')] = lambda interp, f: (lambda i2: f.close_ctx(i2))
+
+
+class TextFileR:
+    """A real text file of the repository (packaged assets), read concretely."""
+    type_tag = 'textfile'
+
+    def __init__(self, path):
+        with open(path) as fh:
+            self.lines = fh.readlines()
+
+    def close_ctx(self, interp):
+        pass
+
+
+LIBATTR[('textfile', 'readlines')] = lambda interp, f: (lambda i2: list(f.lines))
